@@ -15,6 +15,18 @@ CLAIMED = {
         technique='Lean 4 proof (decide +kernel over the regenerated table, induction for parameter lists) + translator + differential correspondence',
         design='5 (C20)'),
 }
+CLAIMED['C05'] = dict(
+    text='Lean 4 theorems for every Unicode string: the literal escape chain regenerated from materializer.py satisfies a decidable '
+         'side condition (decide) under which decode(escape v) = v and the body is a valid STRING_LITERAL_QUOTE (induction over the '
+         'string); percent-encoding round-trips through UTF-8 (core utf8 lemma), leaves only unreserved/safe characters unencoded and '
+         'always yields a valid IRIREF body; counter-witness theorems for the recorded defects. Correspondence of '
+         '_materialize_template / falcon / urllib with the model; strict pyoxigraph parse + decode of every emitted line.',
+    note='Trusted: Lean kernel; translator (escape chains, delimiters by AST); falcon/urllib encoders modelled and compared '
+         '(all scalar values in the thorough tier); str.isprintable is a parameter; pyoxigraph as reference parser; the grammar reading in Spec/NTerm.lean. '
+         'Open findings C05_F1, C05_F2, C05_F5 are excluded by narrow scope predicates.',
+    technique='Lean 4 proof (induction over strings, decide on the regenerated escape chain) + translator + differential correspondence + strict-parser oracle',
+    design='5 (C05)')
+
 NOT_APPLICABLE_REASON = 'check not built yet in this round; see DESIGN.md section 5 for the planned Lean model'
 
 checks, na = [], []
